@@ -7,6 +7,7 @@
 //! the implementation-vs-reference failures found by the harness itself (independent of the model).
 mod out;
 mod rng;
+mod suite_c;
 mod suite_t;
 
 use std::path::PathBuf;
@@ -33,6 +34,7 @@ fn main() {
         "gen" => {
             let lines = match suite.as_str() {
                 "T" => suite_t::gen(&mut rng, &suite_t::Params { cases, max_ops }),
+                "C" => suite_c::gen(&mut rng, &suite_c::Params { cases }),
                 _ => {
                     eprintln!("unknown suite {}", suite);
                     std::process::exit(2);
@@ -52,6 +54,7 @@ fn main() {
             let mut out = out::Out::new(&out_dir, &suite);
             match suite.as_str() {
                 "T" => suite_t::exec(&lines, &mut out, &scratch),
+                "C" => suite_c::exec(&lines, &mut out),
                 _ => {
                     eprintln!("unknown suite {}", suite);
                     std::process::exit(2);
